@@ -58,13 +58,82 @@ Theorem C33_getrandbits_range :
 Proof. exact getrandbits_range. Qed.
 Print Assumptions C33_getrandbits_range.
 
+(** _randbelow: 0 <= result < n, for every n >= 1 and every tape (fast path and rejection loop). *)
+Theorem C33_randbelow_range :
+  forall (fuel : nat) (n : Z) (tp : tape) (v : Z) (tp' : tape),
+    (1 <= n)%Z -> bits tp -> randbelow fuel n tp = Some (v, tp') -> (0 <= v < n)%Z /\ bits tp'.
+Proof. exact randbelow_range. Qed.
+Print Assumptions C33_randbelow_range.
+
+Theorem C33_randbelow_bits_range :
+  forall (fuel : nat) (n : Z) (tp : tape) (x : list Z) (tp' : tape),
+    (1 <= n)%Z -> bits tp -> randbelow_bits fuel n tp = Some (x, tp') ->
+    bits x /\ length x = bit_length (n - 1) /\ (0 <= from_bits x < n)%Z /\ bits tp'.
+Proof. exact randbelow_bits_range. Qed.
+Print Assumptions C33_randbelow_bits_range.
+
+(** randrange / randint: start + r*step with 0 <= r < len(range(start, stop, step)); within [start, stop) for step > 0. *)
+Theorem C33_randrange_lattice :
+  forall (fuel : nat) (start stop step : Z) (tp : tape) (v : Z) (tp' : tape),
+    bits tp -> randrange fuel start stop step tp = Some (v, tp') ->
+    exists r, (0 <= r < range_len start stop step)%Z /\ v = (start + r * step)%Z.
+Proof. exact randrange_lattice. Qed.
+Print Assumptions C33_randrange_lattice.
+
+Theorem C33_randrange_within :
+  forall (fuel : nat) (start stop step : Z) (tp : tape) (v : Z) (tp' : tape),
+    bits tp -> (0 < step)%Z -> randrange fuel start stop step tp = Some (v, tp') ->
+    (start <= v < stop)%Z /\ (step | v - start)%Z.
+Proof. exact randrange_within. Qed.
+Print Assumptions C33_randrange_within.
+
+(** uniform on a non-degenerate interval (scaled integers a < b): a <= N < b. *)
+Theorem C33_uniform_within :
+  forall (fuel : nat) (a b : Z) (tp : tape) (v : Z) (tp' : tape),
+    bits tp -> (a < b)%Z -> uniform_fxp fuel a b tp = Some (v, tp') -> (a <= v < b)%Z.
+Proof. exact uniform_within. Qed.
+Print Assumptions C33_uniform_within.
+
+(** Uniformity by counting, bound in the statement (n <= 64): a tape holding exactly one pass of k bits is accepted
+    iff it encodes a value v < n, the output is v and the k bits are consumed; every v < n has such a tape.
+    (The unbounded version and the induction over restarts are missing.) *)
+Theorem C33_randbelow_one_pass_bounded_partial :
+  forall n : Z, (1 <= n <= 64)%Z ->
+    forall tp, In tp (all_tapes (bit_length (n - 1))) ->
+      randbelow 100 n tp = if (from_bits tp <? n)%Z then Some (from_bits tp, []) else None.
+Proof. exact randbelow_one_pass_bounded. Qed.
+Print Assumptions C33_randbelow_one_pass_bounded_partial.
+
+Theorem C33_randbelow_one_pass_onto_bounded_partial :
+  forall n : Z, (1 <= n <= 64)%Z -> forall v : Z, (0 <= v < n)%Z ->
+    exists tp, In tp (all_tapes (bit_length (n - 1))) /\ randbelow 100 n tp = Some (v, []).
+Proof. exact randbelow_one_pass_onto_bounded. Qed.
+Print Assumptions C33_randbelow_one_pass_onto_bounded_partial.
+
+(** The bits retained on a restart (x[:j]) are not inspected by the rejecting pass: any x' that agrees with x
+    from position j upwards is rejected at the same position j. *)
+Theorem C33_rejection_ignores_retained_bits :
+  forall (b : Z) (t : nat), 1 <= t -> forall (steps : nat) (x x' : list Z) (h : Z) (i j : nat),
+    rb_pass b t x h steps i = Some j ->
+    (forall m, j <= m -> nth m x' 0%Z = nth m x 0%Z) ->
+    rb_pass b t x' h steps i = Some j.
+Proof. exact rb_pass_ignores_low_bits. Qed.
+Print Assumptions C33_rejection_ignores_retained_bits.
+
+Example C33_nonvacuous2 :
+  randbelow 100 6 [1; 1; 1; 0; 1]%Z = Some (5%Z, []) /\          (* 7 rejected at bit 1... restart keeps bit 0 *)
+  randrange 100 2 11 3 [0; 1]%Z = Some (8%Z, []) /\
+  uniform_fxp 100 16 28 [1; 1; 0; 1]%Z = Some (27%Z, []) /\
+  rb_pass 5 2 [1; 1; 1]%Z 1 3 3 = Some 1 /\ rb_pass 5 2 [0; 1; 1]%Z 1 3 3 = Some 1.
+Proof. vm_compute. repeat split; reflexivity. Qed.
+
 (** Non-vacuity: concrete tapes on which the functions return [Some], incl. a restart. *)
 Example C33_nonvacuous :
   bits [1; 0; 1; 1; 0; 0; 0]%Z /\
   random_unit_vector 100 5 [1; 0; 1; 1; 0; 0; 0]%Z = Some ([0; 0; 1; 0; 0]%Z, [0%Z]) /\
   shuffle 100 [10; 20; 30]%Z [1; 0; 0; 1; 1; 1]%Z = Some ([20; 30; 10]%Z, [1; 1; 1]%Z) /\
-  random_derangement 5 100 [3; 9; 5]%Z [0; 0; 1; 1; 0; 0]%Z = Some ([5; 3; 9]%Z, []) /\
-  sample_pop 100 [3; 9; 5; 1]%Z 2 [1; 0; 0; 1]%Z = Some ([9; 5]%Z, []) /\
+  random_derangement 5 100 [3; 9; 5]%Z [0; 1; 1; 1; 0; 0]%Z = Some ([9; 5; 3]%Z, []) /\
+  sample_pop 100 [3; 9; 5; 1]%Z 2 [1; 0; 0; 1]%Z = Some ([9; 3]%Z, []) /\
   choice 100 [5; 7; 9]%Z [1; 0]%Z = Some (7%Z, []) /\
   getrandbits 3 [1; 0; 1]%Z = Some (5%Z, []).
 Proof.
